@@ -16,3 +16,6 @@ pub assume_specification<T>[ <Option<T> as From<T>>::from ](t: T) -> (r: Option<
 /// `#[derive(PartialEq)]` on `core::result::Result` is structural
 pub assume_specification<T: PartialEq, E: PartialEq>[ <Result<T, E> as PartialEq>::eq ](a: &Result<T, E>, b: &Result<T, E>) -> (r: bool)
     ensures T::obeys_eq_spec() && E::obeys_eq_spec() ==> r == (match (*a, *b) { (Ok(x), Ok(y)) => x.eq_spec(&y), (Err(x), Err(y)) => x.eq_spec(&y), _ => false });
+pub assume_specification<T>[ <[T]>::swap ](s: &mut [T], a: usize, b: usize)
+    requires a < old(s)@.len(), b < old(s)@.len()
+    ensures final(s)@ == old(s)@.update(a as int, old(s)@[b as int]).update(b as int, old(s)@[a as int]);
